@@ -136,7 +136,7 @@ def run(ctx: Ctx) -> bool:
 
     # ---------------------------------------------------------------- the order is total on every kind of place name
     key_t = f"{cb.qualname}#variable-order-is-total-on-all-names"
-    names_pool = ["x", "x2", "q1", "q", "y", "y3", "%tmp3", "%tmp3.a", "x2.b", "x10"]
+    names_pool = ["x", "x2", "q1", "q", "y", "y3", "%tmp3", "%tmp3.a", "x2.b", "x10", "x02", "q01", "y3.f1", "y3.f01"]
     bad_t = []
     und_t = None
 
